@@ -6,6 +6,7 @@ import subprocess
 
 from . import bridge as bridge_mod
 from . import driver
+from . import genprog
 from . import tff
 from .c02 import TASKS as EXT_TASKS, run_task
 from .c03 import PROGRAMS
@@ -88,6 +89,8 @@ def generate(tier, seed):
     rnd.shuffle(pairs)
     for (l, r) in pairs[:25 if tier == 'quick' else 300]:
         items.append({'family': 'strong-corpus', 'shape': ('corpus', 'strong', l, r, None), 'label': '%s || %s' % (l, r)})
+    for (l, r) in genprog.pairs(seed + 1, 30 if tier == 'quick' else 1500):
+        items.append({'family': 'strong-generated', 'shape': ('generated', 'strong', l, r, None), 'label': '%s || %s' % (l, r)})
     for t in EXT_TASKS:
         kind = 'external' if t[1] == 'program' else 'external-spec'
         items.append({'family': 'external-corpus', 'shape': (t[0], kind, t[2], t[3], t[4]), 'label': t[0]})
@@ -274,7 +277,7 @@ def replay(r):
 
 def describe(tier):
     return {
-        'rule': 'every problem emitted (two flag combinations) for 21 tasks that exercise identifier shapes the input grammars '
+        'rule': 'every problem emitted (two flag combinations) for grammar-generated program pairs over a confusable name pool (av/genprog.py), for tasks with a direction that has nothing to prove, and for 21 tasks that exercise identifier shapes the input grammars '
                 'accept (leading underscores, predicates of equal name and different arity, a symbol named like a predicate, like '
                 'a renamed symbol, like a mangled placeholder, like a preamble type/constant/predicate, sort-suffix endings, '
                 'colliding/unnamed/underscore formula names) plus a seeded sample of the strong corpus and the external corpus; '
